@@ -15,6 +15,11 @@ func init() {
 		Explanation: "R06.5 (bundle material): once voteTracker.handle has charged a sender to EquivocatorsCount, every path to a return either drops the whole tally entry of its earlier value (delete(Counts, old)) or removes the sender's earlier vote from that entry's Votes map — otherwise genBundle packs the same sender both as a plain vote and as an equivocation pair and the bundle is not a valid quorum proof.",
 		Floor:       map[string]int{"R06.5": 1},
 	})
+	extend("C03", Extension{
+		Run:         func(c *Ctx) { ruleEquivocatorVoteRemovedAs(c, "R03.4") },
+		Explanation: "R03.4 (distinct voters in the certificate the tracker builds): same obligation as R06.5 — once a sender is charged to EquivocatorsCount its earlier vote leaves the Votes set that genBundle packs, so the bundle handed on as a certificate never lists one voter both as a plain vote and as an equivocation pair.",
+		Floor:       map[string]int{"R03.4": 1},
+	})
 	extend("C07", Extension{
 		Run:         ruleEncodeKeepsCurrentAndFutureRounds,
 		Explanation: "R07.5 (what encode persists of the router): the Children map stored into the encoded rootRouter is nil or a map filled inside a range over the original rr.Children, with the loop's own key and value, guarded only by key >= p.Round — so the pipelined state of rounds after the player's round is persisted, not just the current round.",
@@ -38,8 +43,9 @@ func isBuiltinDeleteOn(in ssa.Instruction, mapField *types.Var) bool {
 	return ok && len(cc.Args) > 0 && Mentions(cc.Args[0], mapField, 6)
 }
 
-func ruleEquivocatorVoteRemoved(c *Ctx) {
-	const rule = "R06.5"
+func ruleEquivocatorVoteRemoved(c *Ctx) { ruleEquivocatorVoteRemovedAs(c, "R06.5") }
+
+func ruleEquivocatorVoteRemovedAs(c *Ctx, rule string) {
 	fn := c.Fn("agreement.voteTracker.handle")
 	fEq := c.Fields("agreement.voteTracker.EquivocatorsCount")
 	fCounts := c.Field("agreement.voteTracker.Counts")
